@@ -379,6 +379,7 @@ pub fn run(ctx: &Ctx) {
     let mut awaits = 0u64;
     let mut fakes = 0u64;
     let mut thread_awaits = 0u64;
+    let mut panic_exits = 0u64;
     let mut seen: Vec<std::collections::HashSet<u64>> = (0..NF).map(|_| std::collections::HashSet::new()).collect();
     let mut last_fresh = [0u64; NF];
     for idx in 0..ncases {
@@ -512,7 +513,22 @@ pub fn run(ctx: &Ctx) {
                     }
                 }
             }
-            ip::lib(|| drop(inj));
+            // scope exit: by drop, or by a panic unwinding through the scope that owns the injector
+            if rng.chance(1, 4) {
+                panic_exits += 1;
+                let r = std::panic::catch_unwind(std::panic::AssertUnwindSafe(|| {
+                    ip::lib(|| {
+                        let _owner = inj;
+                        panic!("USER: the test body panics while async fakes are installed");
+                    })
+                }));
+                if r.is_ok() {
+                    err = Some("injected panic did not propagate".into());
+                    break 'outer;
+                }
+            } else {
+                ip::lib(|| drop(inj));
+            }
             // original behaviour is back for every function
             for i in 0..NF {
                 awaits += 1;
@@ -546,5 +562,5 @@ pub fn run(ctx: &Ctx) {
             }
         }
     }
-    out::summary(&J::new().n("awaits_checked", awaits).n("fakes_installed", fakes).n("awaits_on_executor_threads", thread_awaits).n("async_functions", NF));
+    out::summary(&J::new().n("awaits_checked", awaits).n("fakes_installed", fakes).n("awaits_on_executor_threads", thread_awaits).n("lifetimes_ended_by_unwinding", panic_exits).n("async_functions", NF));
 }
